@@ -1389,14 +1389,16 @@ def python_value_to_guppy_type(
         case float():
             return float_type()
         case tuple(elts):
+            # Hints of the wrong length are ignored like all other invalid hints
             hints = (
                 type_hint.element_types
                 if isinstance(type_hint, TupleType)
+                and len(type_hint.element_types) == len(elts)
                 else len(elts) * [None]
             )
             tys = [
                 python_value_to_guppy_type(elt, node, globals, hint)
-                for elt, hint in zip(elts, hints, strict=False)
+                for elt, hint in zip(elts, hints, strict=True)
             ]
             if any(ty is None for ty in tys):
                 return None
